@@ -6,6 +6,7 @@ package main
 // consumed and whether it can have returned.
 
 import (
+	"bytes"
 	"fmt"
 	"io"
 	"math"
@@ -77,8 +78,66 @@ func newCaseServer(scripts map[int]*hScript) *caseServer {
 	return cs
 }
 
+// Body bytes are position dependent and differ per stream so that reordering,
+// duplication, loss and cross-stream mix-ups are all visible. Both patterns
+// have period patPeriod, so bodies are produced and checked by block copies.
+const patPeriod = 1 << 16
+
 func reqByte(tok int, off int64) byte  { return byte(off*131 + int64(tok)*29 + off>>8 + 7) }
 func respByte(tok int, off int64) byte { return byte(off*73 + int64(tok)*41 + off>>7 + 3) }
+
+var (
+	patMu    sync.Mutex
+	patCache = map[[2]int][]byte{} // (kind, tok) -> 2*patPeriod bytes, so any window of <= patPeriod bytes is contiguous
+)
+
+func patTable(kind, tok int) []byte {
+	patMu.Lock()
+	defer patMu.Unlock()
+	k := [2]int{kind, tok}
+	if t := patCache[k]; t != nil {
+		return t
+	}
+	t := make([]byte, 2*patPeriod)
+	for i := range t {
+		if kind == 0 {
+			t[i] = reqByte(tok, int64(i))
+		} else {
+			t[i] = respByte(tok, int64(i))
+		}
+	}
+	patCache[k] = t
+	return t
+}
+
+// fillPat writes pattern bytes off.. into p.
+func fillPat(kind, tok int, off int64, p []byte) {
+	t := patTable(kind, tok)
+	for len(p) > 0 {
+		o := int(off % patPeriod)
+		n := copy(p, t[o:o+patPeriod])
+		p = p[n:]
+		off += int64(n)
+	}
+}
+
+// equalPat reports whether p equals pattern bytes off.. .
+func equalPat(kind, tok int, off int64, p []byte) bool {
+	t := patTable(kind, tok)
+	for len(p) > 0 {
+		o := int(off % patPeriod)
+		n := len(p)
+		if n > patPeriod {
+			n = patPeriod
+		}
+		if !bytes.Equal(p[:n], t[o:o+n]) {
+			return false
+		}
+		p = p[n:]
+		off += int64(n)
+	}
+	return true
+}
 
 func (cs *caseServer) openGate(tok, k int) {
 	cs.mu.Lock()
@@ -202,6 +261,9 @@ func (cs *caseServer) Done(tok int) (bool, int64, int64, bool) {
 
 func (cs *caseServer) RespByte(tok int, off int64) byte { return respByte(tok, off) }
 
+// RespEqual reports whether p equals the response body of tok at off.
+func (cs *caseServer) RespEqual(tok int, off int64, p []byte) bool { return equalPat(1, tok, off, p) }
+
 // ---- the handler --------------------------------------------------------------
 
 func tokenOfPath(p string) (int, bool) {
@@ -273,10 +335,12 @@ func (cs *caseServer) ServeHTTP(w http.ResponseWriter, r *http.Request) {
 				}
 				n, err := r.Body.Read(rbuf[:sz])
 				cs.mu.Lock()
-				for k := 0; k < n; k++ {
-					if rbuf[k] != reqByte(tok, rec.consumed+int64(k)) {
-						rec.corrupt = true
-					}
+				off := rec.consumed
+				cs.mu.Unlock()
+				ok := equalPat(0, tok, off, rbuf[:n])
+				cs.mu.Lock()
+				if !ok {
+					rec.corrupt = true
 				}
 				rec.consumed += int64(n)
 				if err != nil {
@@ -312,9 +376,7 @@ func (cs *caseServer) ServeHTTP(w http.ResponseWriter, r *http.Request) {
 				cs.mu.Lock()
 				off := rec.written
 				cs.mu.Unlock()
-				for k := 0; k < sz; k++ {
-					wbuf[k] = respByte(tok, off+int64(k))
-				}
+				fillPat(1, tok, off, wbuf[:sz])
 				n, err := w.Write(wbuf[:sz])
 				cs.mu.Lock()
 				rec.written += int64(n)
